@@ -47,6 +47,9 @@ def v2_catalogue():
     for n in (1, 5, 6, 40, 56, 200):
         cat.append({"v2": {"kind": "random", "n": n}})
     cat.append({"v2": {"kind": "empty_frame"}})
+    for hx in ("8370", "837000", "83700020", "8370002003", "8370" + "00" * 6, "5a5a", "5a5a0111", "5a", "00", "aa", "aa21ac",
+               "ff" * 17, "5a5a01113800" + "00" * 50):
+        cat.append({"v2": {"kind": "v2_trailing", "hex": hx}})
     return cat
 
 
@@ -209,7 +212,7 @@ def space(tier):
     def rnd(j, rng):
         v = rng.choice([2, 3])
         if v == 2:
-            kind = rng.choice(["v2_len", "v2_enc", "v2_badpad", "v2_trunc", "random"])
+            kind = rng.choice(["v2_len", "v2_enc", "v2_badpad", "v2_trunc", "random", "v2_trailing"])
             if kind == "v2_len":
                 b = {"v2": {"kind": kind, "value": rng.choice([rng.randrange(0, 200), rng.randrange(0, 65536)]),
                             "resign": rng.random() < 0.7, "trail": rng.choice([0, 0, 3, 40])}}
@@ -219,6 +222,8 @@ def space(tier):
                 b = {"v2": {"kind": kind, "blocks": rng.randint(1, 4), "last": rng.randrange(256)}}
             elif kind == "v2_trunc":
                 b = {"v2": {"kind": kind, "n": rng.randrange(1, 200)}}
+            elif kind == "v2_trailing":
+                b = {"v2": {"kind": kind, "hex": (rng.choice(["8370", "5a5a", ""]) + rand_bytes(rng, rng.randrange(0, 9)).hex())}}
             else:
                 b = {"v2": {"kind": "random", "n": rng.randrange(1, 300)}}
             return make_plan(2, rng.choice(["lan_send", "refresh"]), "data", b, rng,
